@@ -98,6 +98,12 @@ pub fn option(d: &mut D, pos: Pos) -> (String, bool) {
             Pos::Variant => d.pick(variant).to_string(),
         },
     };
+    // an option key is a path: the same word with a leading `::` (or behind a module) is another, unknown key
+    if d.ratio(1, 12) {
+        let v = if d.bool() { bad_value(d) } else { String::new() };
+        let key = if d.ratio(2, 3) { format!("::{}", name) } else { format!("m::{}", name) };
+        return (format!("{} {}", key, v), false);
+    }
     if d.ratio(1, 7) {
         let v = bad_value(d);
         return (format!("{} {}", name, v), false);
